@@ -236,6 +236,9 @@ class AutoScaler(Entity):
         self._policy = policy or TargetUtilization()
         self._min_instances = min_instances
         self._max_instances = max_instances
+        if evaluation_interval <= 0:
+            # a periodic timer with a zero period re-arms itself at the current instant forever
+            raise ValueError(f"evaluation_interval must be > 0, got {evaluation_interval}")
         self._evaluation_interval = evaluation_interval
         self._scale_out_cooldown = scale_out_cooldown
         self._scale_in_cooldown = scale_in_cooldown
